@@ -1138,7 +1138,7 @@ func genGoMiniAll() []*leanFile {
 		[]string{sv + "metadata.go"})})
 	out = append(out, &leanFile{name: "GoAck", raw: genGoMini("GoAck",
 		[]string{sv + "partition.go", sv + "api.go"},
-		map[string][]string{sv + "partition.go": {"partition.processPendingMessage", "partition.sendAck"}, sv + "api.go": {"apiServer.ensurePublishPreconditions"}},
+		map[string][]string{sv + "partition.go": {"partition.processPendingMessage", "partition.sendAck", "partition.sendTooLargeNack", "partition.SetLeader"}, sv + "api.go": {"apiServer.ensurePublishPreconditions"}},
 		[]string{sv + "partition.go", sv + "api.go"})})
 	out = append(out, &leanFile{name: "GoNatsMsg", raw: genGoMini("GoNatsMsg",
 		[]string{sv + "partition.go"},
